@@ -78,6 +78,7 @@ func inpkgJobs(thorough bool) []job {
 		add(splitJobs(eng, "A", spaceA(maxLen), 28), 2)
 		add(splitJobs(eng, "B", spaceB(4, bAlpha), 14), bLevel)
 		add(splitJobs(eng, "dict", spaceDict(thorough), 2), 2)
+		add(splitJobs(eng, "len", spaceLen(), 3), 1)
 		for _, s := range spaceLimit(thorough) {
 			add([]job{{Kind: eng, Name: "limit:" + s.String(), Series: number([]series{s})}}, 0)
 		}
